@@ -3,7 +3,7 @@ import os
 import numpy as np
 from hypothesis import strategies as st
 
-from .. import files, gen, spec, stages
+from .. import env, files, gen, spec, stages
 from ..core import Violation
 from .c10 import source_stage
 
@@ -55,7 +55,11 @@ def cases(draw):
         il0, ils = desc["il"]
         if any(il0 + ils * i == 0 for i in range(n_il)):
             desc["il"] = [abs(il0) + 1, abs(ils)]
-    return {"file": desc}
+    # the converter is an SgzReader: it may be opened with preload and may have served other calls before
+    before = draw(st.lists(st.sampled_from(["gen_trace_header", "get_tracefield_values", "convert_to_segy", "read_inline",
+                                            "read_zslice", "get_trace"]), max_size=3)) if draw(st.integers(0, 2)) == 0 else []
+    return {"file": desc, "preload": draw(st.sampled_from([False, False, True])), "before": before,
+            "u": [draw(st.floats(0, 1, exclude_max=True)) for _ in range(3)]}
 
 
 @st.composite
@@ -76,10 +80,29 @@ def run_case(case, ctx):
     path, T = files.build(case["file"], d, "src.sgz")
     out = os.path.join(d, "adv.sgz")
     exc = None
-    c = SgzConverter(path)
+    c = SgzConverter(path, preload=bool(case.get("preload")))
     try:
+        u = case.get("u", [0.5, 0.5, 0.5])
+        for k, b in enumerate(case.get("before", [])):
+            try:
+                with env.quiet():
+                    if b == "gen_trace_header":
+                        c.gen_trace_header(int(u[k] * T.n_tr))
+                    elif b == "get_tracefield_values":
+                        c.get_tracefield_values(T.owners[int(u[k] * len(T.owners))])
+                    elif b == "convert_to_segy":
+                        c.convert_to_segy(os.path.join(d, "exp.sgy"))
+                    elif b == "read_inline":
+                        c.read_inline(int(u[k] * T.n_il))
+                    elif b == "read_zslice":
+                        c.read_zslice(int(u[k] * T.n_s))
+                    elif b == "get_trace":
+                        c.get_trace(int(u[k] * T.n_tr))
+            except Exception as e:
+                raise Violation(f"earlier-call-failed:{b}", f"{b} on the converter object: {type(e).__name__}: {e}")
         try:
-            c.convert_to_adv_sgz(out)
+            with env.quiet():
+                c.convert_to_adv_sgz(out)
         except Exception as e:
             exc = e
     finally:
@@ -112,7 +135,8 @@ def run_case(case, ctx):
     return {"sig": [cls64(n_il), cls64(n_xl), ns > 1024, ns % 4, len(T.owners), stride_odd, T.structured,
                     case["file"]["version"]] if nontriv else None,
             "labels": ["irregular" if not T.structured else "regular", "z>1024" if ns > 1024 else "z<=1024",
-                       f"il:{cls64(n_il)[0]}", f"xl:{cls64(n_xl)[0]}"]}
+                       f"il:{cls64(n_il)[0]}", f"xl:{cls64(n_xl)[0]}"] + (["preload"] if case.get("preload") else [])
+            + ["before:" + b for b in case.get("before", [])]}
 
 
 def shard_main(ctx):
